@@ -14,7 +14,7 @@ from . import c16
 
 def harnesses(tier, seed):
     from . import c17
-    gfr = [h for h in c17.harnesses('quick', seed) if h.params['op'] == 'get_final_results']
+    gfr = [h for h in c17.model_harnesses('quick', seed) if h.params['op'] == 'get_final_results']
     for h in gfr:
         h.name = 'model:' + h.name
         h.home = 'C17'          # (only the C11-labelled obligation of that harness is discharged here)
